@@ -55,3 +55,5 @@ func Verif_C02_P4_StepInjective() {
 // whose reference no longer resolves is invalid; a slot that was never written
 // (all zero) is invalid unless its checksum happens to match (not asserted).
 func Verif_C02_P4_RecordRoundTrip() { verifScenarioRecordRoundTrip() }
+
+func Verif_C02_P4_RecordRoundTripGrid() { verifScenarioRecordRoundTripGrid() }
